@@ -11,10 +11,19 @@ import KB.Driver.Suites
 namespace KB.Driver.Sched
 open KB KB.Driver
 
+/-- A read request run as a stepped client: `Backend.List` samples the committed revision once, before
+its storage calls (floor check = gate `get`, then the scan = gate `iter`); `Backend.Get` samples it, then
+one descending iteration (gate `iter`). -/
+inductive PendingRead where
+  | list (a b : Bytes) (reqRev hdr0 lim : Nat) (stage : Nat) (snap : Option Store)   -- stage 0: at get, 1: at iter
+  | get (k : Bytes) (rev hdr0 : Nat)
+  deriving Repr
+
 structure State where
   g : G := {}
   /-- (oldVal, modRev) a delete carried when it committed, for rendering its response -/
   delOld : List (Nat × Bytes × Nat) := []
+  reads : List (Nat × PendingRead) := []
   deriving Repr
 
 def init : State := {}
@@ -88,6 +97,16 @@ def step (st : State) (toks : List String) : State × String :=
     let s0 := initSuite "backend" opts
     ({ g := { cfg := s0.cfg, dealt := s0.b.dealt, committed := s0.b.committed } }, "cfg ok")
   | ["gated", x] => (st, s!"gated {x}")
+  | ["start", cid, "list", a, b, r, lim] =>
+    -- validation happens before any storage call
+    let reqRev := if atou r == 0 then st.g.committed else atou r
+    if (unhx b).isEmpty || cmp (unhx a) (unhx b) != .lt then (st, s!"done {cid} list err invalid")
+    else if atou lim > 0 then
+      -- the limited path: timestamp, floor check (get), one worker (iter)
+      ({ st with reads := (widOf cid, .list (unhx a) (unhx b) reqRev st.g.committed (atou lim) 0 (if st.g.cfg.q.snapshotAtTs then some st.g.store else none)) :: st.reads }, s!"at {cid} get")
+    else ({ st with reads := (widOf cid, .list (unhx a) (unhx b) reqRev st.g.committed 0 0 (if st.g.cfg.q.snapshotAtTs then some st.g.store else none)) :: st.reads }, s!"at {cid} get")
+  | ["start", cid, "get", k, r] =>
+    ({ st with reads := (widOf cid, .get (unhx k) (relRev st.g.committed r) st.g.committed) :: st.reads }, s!"at {cid} iter")
   | "start" :: cid :: req =>
     match parseReq req with
     | none => (st, s!"start {cid} bad-op")
@@ -101,6 +120,27 @@ def step (st : State) (toks : List String) : State × String :=
       (st, report st id cid n)
   | ["step", cid] =>
     let id := widOf cid
+    match st.reads.find? (·.1 == id) with
+    | some (_, .list a b reqRev hdr0 lim 0 snap) =>
+      -- the floor check ran: refused below the floor, else on to the scan
+      if belowFloor st.g.cfg st.g.store reqRev then
+        ({ st with reads := st.reads.filter (·.1 != id) }, s!"done {cid} list err belowfloor")
+      else
+        ({ st with reads := (id, PendingRead.list a b reqRev hdr0 lim 1 snap) :: st.reads.filter (·.1 != id) }, s!"at {cid} iter")
+    | some (_, .list a b reqRev hdr0 lim _ snap) =>
+      -- the data comes from the scan's snapshot (tikv: taken at the start of the scan) — except that the floor
+      -- record is read live
+      let view : BState := { viewB st.g with committed := hdr0, store := snap.getD st.g.store }
+      let line := match doList st.g.cfg view a b reqRev lim with
+        | .ok res => s!"list {res.hdr} {if res.more then 1 else 0} {kvsStr res.kvs}"
+        | .error e => s!"list err {errStr e}"
+        | .panic => "list PANIC"
+      ({ st with reads := st.reads.filter (·.1 != id) }, s!"done {cid} {line}")
+    | some (_, .get k rev hdr0) =>
+      let view : BState := { viewB st.g with committed := hdr0 }
+      let (hdr, kv) := doGet st.g.cfg view k rev
+      ({ st with reads := st.reads.filter (·.1 != id) }, s!"done {cid} get {hdr} {okvStr kv}")
+    | none =>
     match st.g.client id with
     | none => (st, s!"step {cid} no-such-client")
     | some c =>
